@@ -17,7 +17,7 @@
 (*       /new, /apply, set_python_instance_state, generators drained at    *)
 (*       the end of the document.                                          *)
 (* TLC checks L => H on every graph of the bounded space.  The code has    *)
-(* seven places where it deviates from the statement (section DEVIATIONS);  *)
+(* eight places where it deviates from the statement (section DEVIATIONS);  *)
 (* L models each as it is, with a named switch that models the repair, so  *)
 (* that TLC can check (a) the repaired design refines H everywhere and     *)
 (* (b) every deviation of the design as it is is explained by these        *)
@@ -30,13 +30,20 @@ CONSTANTS MaxObjs,      \* objects per graph
           Leaves,       \* leaf kinds used for kids
           KidsRoot,     \* max number of kids of object 1
           KidsRest,     \* max number of kids of the other objects
+          Schemes,      \* attribute naming schemes used (subset of AllSchemes)
           CodeFixes     \* which deviations are repaired in the tree the model describes ({} = pinned tree)
 
 H == INSTANCE H_Reduce
 
 AllShapes == {"list", "dict", "tuple", "set", "P", "PA", "S", "SD", "GS", "GT", "GV", "GC", "GL", "NA", "NT", "R2", "R3", "RL", "RD",
               "CR", "ML", "MD", "MS", "OD", "MO", "XS"}
-AllFixes  == {"deepreg", "slotsnone", "falsystate", "nonestate", "emptytuple", "latefill", "scalarsub"}
+AllFixes  == {"deepreg", "slotsnone", "falsystate", "nonestate", "emptytuple", "latefill", "scalarsub", "stateorder"}
+\* Attribute names are part of the state.  The naming scheme of an object gives the name of its first attribute (the others
+\* are b, c, ...): an ordinary name, 'extend' (the method construct_python_object_apply calls), a __dunder__ name, an
+\* underscore-private name, names of other container methods.
+AllSchemes == {"ord", "ext", "dun", "prv", "app", "upd"}
+FirstName(n) == CASE n = "ext" -> "extend" [] n = "dun" -> "__tag__" [] n = "prv" -> "_p" [] n = "app" -> "append"
+                  [] n = "upd" -> "update" [] OTHER -> "a"
 
 Range(s) == {s[i] : i \in DOMAIN s}
 Min(a, b) == IF a < b THEN a ELSE b
@@ -68,23 +75,28 @@ INames == <<"i0", "i1", "i2", "i3", "i4", "i5", "i6", "i7">>
 PNames == <<"p0", "p1", "p2", "p3", "p4", "p5", "p6", "p7">>
 LenLeaf == <<"n0", "n1", "n2", "n3", "n4", "n5", "n6", "n7", "n8">>
 \* Python's sorted() order of all attribute names of the family
-AttrOrder == <<"a", "b", "c", "d", "d_k0", "d_k1", "d_k2", "d_k3", "d_k4", "d_k5", "d_k6", "d_k7", "e", "f", "g", "h",
-               "i0", "i1", "i2", "i3", "i4", "i5", "i6", "i7", "items", "n", "p0", "p1", "p2", "p3", "p4", "p5", "p6", "p7", "v",
+AttrOrder == <<"__tag__", "_p", "a", "append", "b", "c", "d", "d_k0", "d_k1", "d_k2", "d_k3", "d_k4", "d_k5", "d_k6", "d_k7", "e",
+               "extend", "f", "g", "h",
+               "i0", "i1", "i2", "i3", "i4", "i5", "i6", "i7", "items", "n", "p0", "p1", "p2", "p3", "p4", "p5", "p6", "p7", "update", "v",
                "x0", "x1", "x2", "x3", "x4", "x5", "x6", "x7">>
 XNames == <<"x0", "x1", "x2", "x3", "x4", "x5", "x6", "x7">>
 \* Python's sorted() order of every dict key that occurs (keys of dicts of the graph, and of the transient dicts the loader builds)
-KeyOrder == <<"a", "args", "b", "c", "d", "dictitems", "e", "f", "g", "h", "items", "k0", "k1", "k2", "k3", "k4", "k5", "k6", "k7",
-              "listitems", "state">>
+KeyOrder == <<"__tag__", "_p", "a", "append", "args", "b", "c", "d", "dictitems", "e", "extend", "f", "g", "h", "items",
+              "k0", "k1", "k2", "k3", "k4", "k5", "k6", "k7", "listitems", "state", "update">>
 LeafOrder == <<"b", "c", "e", "f", "i", "i0", "m", "n", "s", "s0", "z">>
 KeyIndex(k) == CHOOSE j \in DOMAIN Keys : Keys[j] = k
 
-Attrs(vs) == [j \in DOMAIN vs |-> <<ANames[j], At(vs[j])>>]
+NameAt(o, j) == IF j = 1 THEN FirstName(o.n) ELSE ANames[j]
+AttrsU(o) == [j \in DOMAIN o.a |-> <<NameAt(o, j), At(o.a[j])>>]                  \* in the order of the section
+SortPairs(ps) == LET present == SelectSeq(AttrOrder, LAMBDA nm : \E j \in DOMAIN ps : ps[j][1] = nm)
+                 IN  [x \in DOMAIN present |-> ps[CHOOSE j \in DOMAIN ps : ps[j][1] = present[x]]]
+Attrs(o) == SortPairs(AttrsU(o))                                                  \* sorted by name (sort_keys)
 Keyed(vs) == [j \in DOMAIN vs |-> <<Keys[j], At(vs[j])>>]
 \* an OrderedDict is filled in descending key order, so that its order differs from the sorted order and is observable
 KeyedDesc(vs) == [j \in DOMAIN vs |-> <<Keys[Len(vs) + 1 - j], At(vs[j])>>]
 Atoms(vs) == [j \in DOMAIN vs |-> At(vs[j])]
 Pad2(vs)  == [j \in 1 .. 2 |-> IF j <= Len(vs) THEN vs[j] ELSE Lf("z")]
-DictOrNone(vs) == IF vs = <<>> THEN VNone ELSE VD(Attrs(vs))
+DictOrNone(o) == IF o.a = <<>> THEN VNone ELSE VD(Attrs(o))
 
 (***************************************************************************)
 (* The class family: what each class's reduction returns (the interface    *)
@@ -97,32 +109,32 @@ DictOrNone(vs) == IF vs = <<>> THEN VNone ELSE VD(Attrs(vs))
 Rd(new, fn, args, state, li, di) == [new |-> new, fn |-> fn, args |-> args, state |-> state, li |-> li, di |-> di]
 
 ReduceOf(o) ==
-  CASE o.s = "P"  -> Rd(TRUE, "P", <<>>, DictOrNone(o.a), <<>>, <<>>)
-    [] o.s = "PA" -> Rd(TRUE, "PA", <<>>, DictOrNone(o.a), <<>>, <<>>)            \* like P; its __setattr__ must not run
+  CASE o.s = "P"  -> Rd(TRUE, "P", <<>>, DictOrNone(o), <<>>, <<>>)
+    [] o.s = "PA" -> Rd(TRUE, "PA", <<>>, DictOrNone(o), <<>>, <<>>)            \* like P; its __setattr__ must not run
     [] o.s = "GL" -> Rd(TRUE, "GL", <<>>, VD(<< <<"items", At(o.p[1])>> >>), <<>>, <<>>)  \* state holds a list of the graph
-    [] o.s = "S"  -> Rd(TRUE, "S", <<>>, IF o.a = <<>> THEN VNone ELSE VT(<<VNone, VD(Attrs(o.a))>>), <<>>, <<>>)
+    [] o.s = "S"  -> Rd(TRUE, "S", <<>>, IF o.a = <<>> THEN VNone ELSE VT(<<VNone, VD(Attrs(o))>>), <<>>, <<>>)
     [] o.s = "SD" -> Rd(TRUE, "SD", <<>>,
                         IF o.a = <<>> THEN VNone
-                        ELSE VT(<<IF Len(o.a) = 1 THEN VNone ELSE VD(Tail(Attrs(o.a))), VD(<<Attrs(o.a)[1]>>)>>),
+                        ELSE VT(<<IF Len(o.a) = 1 THEN VNone ELSE VD(SortPairs(Tail(AttrsU(o)))), VD(<<AttrsU(o)[1]>>)>>),
                         <<>>, <<>>)
-    [] o.s = "GS" -> Rd(TRUE, "GS", <<>>, VD(Attrs(o.a)), <<>>, <<>>)
+    [] o.s = "GS" -> Rd(TRUE, "GS", <<>>, VD(Attrs(o)), <<>>, <<>>)
     [] o.s = "GT" -> Rd(TRUE, "GT", <<>>, VL(Atoms(o.p)), <<>>, <<>>)
     [] o.s = "GV" -> Rd(TRUE, "GV", <<>>, At(o.p[1]), <<>>, <<>>)
     [] o.s = "GC" -> Rd(TRUE, "GC", <<>>, VD(<< <<"items", VL(Atoms(o.p))>> >>), <<>>, <<>>)
-    [] o.s = "NA" -> Rd(TRUE, "NA", Atoms(o.p), DictOrNone(o.a), <<>>, <<>>)
+    [] o.s = "NA" -> Rd(TRUE, "NA", Atoms(o.p), DictOrNone(o), <<>>, <<>>)
     [] o.s = "NT" -> Rd(TRUE, "NT", Atoms(Pad2(o.p)), VNone, <<>>, <<>>)
     [] o.s = "R2" -> Rd(FALSE, "make_r2", Atoms(o.p), VNone, <<>>, <<>>)
     [] o.s = "CR" -> Rd(FALSE, "make_cr", Atoms(o.p), VNone, <<>>, <<>>)          \* through copyreg.dispatch_table
-    [] o.s = "R3" -> Rd(FALSE, "R3", Atoms(o.p), VD(Attrs(o.a)), <<>>, <<>>)
-    [] o.s = "RL" -> Rd(FALSE, "RL", <<>>, DictOrNone(o.a), Atoms(o.p), <<>>)
+    [] o.s = "R3" -> Rd(FALSE, "R3", Atoms(o.p), VD(Attrs(o)), <<>>, <<>>)
+    [] o.s = "RL" -> Rd(FALSE, "RL", <<>>, DictOrNone(o), Atoms(o.p), <<>>)
     [] o.s = "RD" -> Rd(FALSE, "RD", <<>>, VNone, <<>>, Keyed(o.p))
-    [] o.s = "ML" -> Rd(TRUE, "ML", <<>>, DictOrNone(o.a), Atoms(o.p), <<>>)
-    [] o.s = "MD" -> Rd(TRUE, "MD", <<>>, DictOrNone(o.a), <<>>, Keyed(o.p))
-    [] o.s = "MS" -> Rd(FALSE, "MS", <<VL(Atoms(o.p))>>, VD(Attrs(o.a)), <<>>, <<>>)
+    [] o.s = "ML" -> Rd(TRUE, "ML", <<>>, DictOrNone(o), Atoms(o.p), <<>>)
+    [] o.s = "MD" -> Rd(TRUE, "MD", <<>>, DictOrNone(o), <<>>, Keyed(o.p))
+    [] o.s = "MS" -> Rd(FALSE, "MS", <<VL(Atoms(o.p))>>, VD(Attrs(o)), <<>>, <<>>)
     [] o.s = "OD" -> Rd(FALSE, "OD", <<>>, VNone, <<>>, KeyedDesc(o.p))                \* pickle's view; yaml has its own representer
     \* subclasses of types that have their own representer entry go through represent_object like everything else
-    [] o.s = "MO" -> Rd(FALSE, "MO", <<>>, DictOrNone(o.a), <<>>, Keyed(o.p))     \* OrderedDict subclass with attributes
-    [] o.s = "XS" -> Rd(TRUE, "XS", <<At(o.p[1])>>, DictOrNone(o.a), <<>>, <<>>)  \* int / str / float / bytes / complex subclass
+    [] o.s = "MO" -> Rd(FALSE, "MO", <<>>, DictOrNone(o), <<>>, Keyed(o.p))     \* OrderedDict subclass with attributes
+    [] o.s = "XS" -> Rd(TRUE, "XS", <<At(o.p[1])>>, DictOrNone(o), <<>>, <<>>)  \* int / str / float / bytes / complex subclass
     [] OTHER -> Rd(FALSE, "?", <<>>, VNone, <<>>, <<>>)
 
 HasSetstate(lab) == lab \in {"GS", "GT", "GV", "GC", "GL"}
@@ -226,7 +238,7 @@ Canon(rec) ==
 (*   state not None: obj.__setstate__(state) if defined, else              *)
 (*       (state, slotstate) = state if it is a 2-tuple;                    *)
 (*       obj.__dict__.update(state) if state; setattr each slot            *)
-(*   obj.extend(listitems); obj[k] = v for dictitems                       *)
+(*   (obj.extend(listitems) and obj[k] = v for dictitems come BEFORE that) *)
 (* References keep their identity (the memo), so object i of g is node i.  *)
 (***************************************************************************)
 PDefaultState(rec, sv) ==
@@ -248,10 +260,11 @@ PObj(g, o) ==
        LET rd == ReduceOf(o)
            r0 == ClsNew(rd.fn, rd.new, rd.args)
            state == IF o.s = "GL" THEN VD(<< <<"items", WholeList(g, o.p[1])>> >>) ELSE rd.state
-           r1 == IF IsNoneV(rd.state) THEN r0
-                 ELSE IF HasSetstate(r0.lab) THEN ClsSetState(r0, state) ELSE PDefaultState(r0, state)
-           r2 == IF rd.li = <<>> THEN r1 ELSE ClsExtend(r1, rd.li)
-       IN  IF rd.di = <<>> THEN r2 ELSE ClsSetItems(r2, rd.di)
+           \* pickle: APPENDS, SETITEMS, and only then BUILD
+           r1 == IF rd.li = <<>> THEN r0 ELSE ClsExtend(r0, rd.li)
+           r2 == IF rd.di = <<>> THEN r1 ELSE ClsSetItems(r1, rd.di)
+       IN  IF IsNoneV(rd.state) THEN r2
+           ELSE IF HasSetstate(r2.lab) THEN ClsSetState(r2, state) ELSE PDefaultState(r2, state)
 
 PickleRebuild(g) == [i \in DOMAIN g |-> Canon(PObj(g, g[i]))]
 RootKid == [c |-> "root", k |-> "", r |-> 1, d |-> "", dk |-> "", soft |-> TRUE]
@@ -400,14 +413,20 @@ TwoPhase(node) == node.k \in {"seq", "map"} /\ node.tag \in {"seq", "map", "set"
 Unregistered(st, node) == st.full /\ node.tag \in {"module", "object", "new", "apply"}
 
 \* FullConstructor.set_python_instance_state (constructor.py:595-612), unsafe = TRUE
+Blacklisted(name) == name \in {"extend", "__tag__"}                 \* '^extend$', '^__.*__$'
 SetInstState(st, iv, sv) ==
-  LET rec == st.heap[iv.r] IN
+  LET rec == st.heap[iv.r]
+      keysOf(v) == IF v.t = "dict" THEN {v.e[j][1] : j \in DOMAIN v.e} ELSE {}
+      allKeys == IF sv.t = "tuple" /\ Len(sv.e) = 2 THEN keysOf(sv.e[1]) \cup keysOf(sv.e[2]) ELSE keysOf(sv)
+  IN
   IF HasSetstate(rec.lab) THEN
      LET r == ClsSetState(rec, sv) IN IF IsERR(r) THEN Fail(st, r.dig) ELSE [st EXCEPT !.heap[iv.r] = r]
   ELSE LET two   == sv.t = "tuple" /\ Len(sv.e) = 2
            dpart == IF two THEN sv.e[1] ELSE sv
            spart == IF two THEN sv.e[2] ELSE VD(<<>>)
-       IN  IF spart.t # "dict" THEN Fail(st, "AttributeError")
+       IN  \* check_state_key: only without `unsafe` (FullConstructor); the unsafe constructors pass unsafe=True
+           IF st.full /\ \E k \in allKeys : Blacklisted(k) THEN Fail(st, "ConstructorError")
+           ELSE IF spart.t # "dict" THEN Fail(st, "AttributeError")
            ELSE IF HasDict(rec.lab) THEN
                 \* instance.__dict__.update(state): state None raises TypeError (deviation "slotsnone")
                 IF IsNoneV(dpart) THEN
@@ -520,16 +539,24 @@ ApplyNew(st, n) ==
         LET s2 == Alloc(s1, rec0)
             v  == Rf(Len(s2.heap))
             \* `if state:` skips a state that is false at this moment (deviation "falsystate")
-            s3 == IF hasSt /\ (Truthy(h, stRV) \/ ("falsystate" \in s2.fx /\ ~(stRV.r = 0 /\ stRV.l = "z")))
-                  THEN SetInstState(s2, v, Mat(h, stRV, 2)) ELSE s2
-            s4 == IF s3.err = "" /\ hasLi /\ Truthy(h, Lookup(c.vs, "listitems"))
-                  THEN LET r == ClsExtend(s3.heap[v.r], Mat(h, Lookup(c.vs, "listitems"), 1).e)
-                       IN  IF IsERR(r) THEN Fail(s3, r.dig) ELSE [s3 EXCEPT !.heap[v.r] = r]
-                  ELSE s3
-            s5 == IF s4.err = "" /\ hasDi /\ Truthy(h, Lookup(c.vs, "dictitems"))
-                  THEN LET r == ClsSetItems(s4.heap[v.r], Mat(h, Lookup(c.vs, "dictitems"), 1).e)
-                       IN  IF IsERR(r) THEN Fail(s4, r.dig) ELSE [s4 EXCEPT !.heap[v.r] = r]
-                  ELSE s4
+            DoState(s) == IF s.err = "" /\ hasSt /\ (Truthy(h, stRV) \/ ("falsystate" \in s.fx /\ ~(stRV.r = 0 /\ stRV.l = "z")))
+                          THEN SetInstState(s, v, Mat(h, stRV, 2)) ELSE s
+            \* instance.extend(listitems): `extend` is looked up on the instance, where an attribute of that name set by
+            \* the state shadows the method (a function is then called and the items are dropped, anything else fails)
+            DoList(s) == IF s.err = "" /\ hasLi /\ Truthy(h, Lookup(c.vs, "listitems"))
+                         THEN LET rec == s.heap[v.r]
+                                  sh  == {j \in DOMAIN rec.at : rec.at[j].k = "extend"}
+                              IN  IF sh # {} THEN (IF \E j \in sh : rec.at[j].r = 0 /\ rec.at[j].d = "f" THEN s ELSE Fail(s, "TypeError"))
+                                  ELSE LET r == ClsExtend(rec, Mat(h, Lookup(c.vs, "listitems"), 1).e)
+                                       IN  IF IsERR(r) THEN Fail(s, r.dig) ELSE [s EXCEPT !.heap[v.r] = r]
+                         ELSE s
+            DoDict(s) == IF s.err = "" /\ hasDi /\ Truthy(h, Lookup(c.vs, "dictitems"))
+                         THEN LET r == ClsSetItems(s.heap[v.r], Mat(h, Lookup(c.vs, "dictitems"), 1).e)
+                              IN  IF IsERR(r) THEN Fail(s, r.dig) ELSE [s EXCEPT !.heap[v.r] = r]
+                         ELSE s
+            \* the code sets the state first and feeds the items afterwards; pickle does it the other way round
+            \* (deviation "stateorder", observable through an attribute named extend)
+            s5 == IF "stateorder" \in s2.fx THEN DoState(DoDict(DoList(s2))) ELSE DoDict(DoList(DoState(s2)))
         IN [st |-> s5, v |-> v]
 
 \* construct_document: the queued generators are run, batch after batch, after the root was built
@@ -579,6 +606,8 @@ InDomain(g) ==
   /\ \A i \in DOMAIN g : g[i].s = "GL" => /\ g[i].p[1].r # 0 /\ g[g[i].p[1].r].s = "list"
                                            /\ i \notin GReach(g, {g[i].p[1].r}, {})
   /\ \A i \in DOMAIN g : g[i].s = "GV" /\ g[i].p[1].r # 0 => g[g[i].p[1].r].s \notin {"dict", "MD", "OD", "MO"}
+  \* an attribute named extend that holds a class would be *called* with the listitems by the code as it is
+  /\ \A i \in DOMAIN g : g[i].s \in {"ML", "RL"} /\ g[i].n = "ext" /\ g[i].a # <<>> => g[i].a[1] # Lf("n")
   /\ \A i \in DOMAIN g : g[i].s = "XS" => g[i].p[1].r = 0 /\ g[i].p[1].l \in {"i", "i0", "s", "s0", "b", "c"}
 
 (***************************************************************************)
@@ -590,7 +619,7 @@ FullOk(g, fx)   == LET o == Load(g, fx, TRUE)  IN IF o.dumped THEN H!FullVerdict
 
 \* DEVIATIONS.  The smallest sets of repairs under which the design satisfies H on g; <<>> when H holds as it is,
 \* <<"unexplained">> when no combination of the named repairs helps.
-FixOrder == <<"deepreg", "slotsnone", "falsystate", "nonestate", "emptytuple", "latefill", "scalarsub">>
+FixOrder == <<"deepreg", "slotsnone", "falsystate", "nonestate", "emptytuple", "latefill", "scalarsub", "stateorder">>
 AsSeq(F) == SelectSeq(FixOrder, LAMBDA x : x \in F)
 \* a repair can only matter on graphs that reach the code it changes (keeps the search small)
 Relevant(g) ==
@@ -601,6 +630,7 @@ Relevant(g) ==
   \cup (IF \E i \in DOMAIN g : g[i].s = "NA" /\ g[i].p = <<>> THEN {"emptytuple"} ELSE {})
   \cup (IF \E i \in DOMAIN g : g[i].s = "GL" THEN {"latefill"} ELSE {})
   \cup (IF \E i \in DOMAIN g : g[i].s = "XS" THEN {"scalarsub"} ELSE {})
+  \cup (IF \E i \in DOMAIN g : g[i].s \in {"ML", "RL"} /\ g[i].n = "ext" /\ g[i].a # <<>> /\ g[i].p # <<>> THEN {"stateorder"} ELSE {})
 Need(g, base) ==
   IF UnsafeOk(g, base).ok THEN <<>>
   ELSE LET cands == {F \in SUBSET (Relevant(g) \ base) : F # {} /\ UnsafeOk(g, base \cup F).ok}
@@ -635,8 +665,8 @@ Splits(s, m) ==
     [] OTHER        -> {<<np, 0>> : np \in 0 .. m}
 
 Objects(s, m, h) ==
-  UNION {{[o |-> [s |-> s, p |-> SubSeq(x.vs, 1, sp[1]), a |-> SubSeq(x.vs, sp[1] + 1, sp[1] + sp[2])], hi |-> x.hi] :
-            x \in KidSeqs(sp[1] + sp[2], h, FALSE)} : sp \in Splits(s, m)}
+  UNION {{[o |-> [s |-> s, p |-> SubSeq(x.vs, 1, sp[1]), a |-> SubSeq(x.vs, sp[1] + 1, sp[1] + sp[2]), n |-> nm], hi |-> x.hi] :
+            x \in KidSeqs(sp[1] + sp[2], h, FALSE), nm \in (IF sp[2] = 0 THEN {"ord"} ELSE Schemes)} : sp \in Splits(s, m)}
 \* set members are leaves, pairwise different
 SetOk(o) == o.s \in {"set", "MS"} => /\ \A j \in DOMAIN o.p : o.p[j].r = 0
                                      /\ \A j1, j2 \in DOMAIN o.p : j1 # j2 => o.p[j1] # o.p[j2]
